@@ -85,7 +85,7 @@ plane_harness!(clip_plane_bottom, 4);
 // @clause top plane: signed distance exactly y-w, bit 32 set iff positive
 plane_harness!(clip_plane_top, 5);
 
-// @ob props=C03,C02 tier=quick kind=P cfg=core-std timeout=1800
+// @ob props=C03,C02 tier=thorough kind=P cfg=core-std timeout=3600
 // @fn view_frustum::outcode ; ClipVert::new ; ClipPlane::is_inside
 // @clause type invariant of ClipVert, modular step: for every point (any bit pattern) the stored outcode is exactly the union of the six per-plane outcode bits (each of which is pinned to its frustum inequality by the clip_plane_* obligations), is < 64, is_inside(plane k) iff bit k is clear, and position and attribute are stored unchanged
 #[cfg(not(verif_skip_clip_outcode_is_union_of_planes))]
@@ -134,7 +134,7 @@ fn clip_outcode_matches_planes() {
     assert!(v.pos.0 == p.0 && v.attrib.to_bits() == a.to_bits());
 }
 
-// @ob props=C03,C02 tier=thorough kind=P cfg=core-std timeout=3600
+// @ob props=C03,C02 tier=quick kind=P cfg=core-std timeout=2400
 // @fn view_frustum::outcode
 // @clause contract of view_frustum::outcode (in place): the result is < 64 and, for every finite point, bit k is set iff the k-th frustum inequality is violated
 #[cfg(not(verif_skip_clip_outcode_contract))]
